@@ -177,6 +177,18 @@ def run(ctx):
             if ctx.evaluations % 500 == 1:
                 ctx.sample({'input': case.text[:200], 'alias': alias, 'f1': detail.get('f1'), 'f2': detail.get('f2'),
                             'valuations_judged': judged, 'verdict': kind or 'ok'})
+            if kind is None and ctx.evaluations % 3 == 0:
+                import types
+                for label, h2 in S.derive_with_but(case.h, 1):
+                    k2, d2, s2, j2, sk2 = judge(types.SimpleNamespace(h=h2), alias, envs)
+                    ctx.count('derived_judged')
+                    ctx.count('valuations_judged', j2)
+                    if k2 is not None:
+                        w2 = {'input': case.text, 'alias': alias, 'level': case.level,
+                              'history': f'refactor_reference(input); input.but(...) [{label}] = {str(h2)[:200]}; refactor_reference(derived)'}
+                        w2.update(d2)
+                        ctx.violation(k2, w2, base_feats | {'shape:derived-with-but'})
+                        break
             if kind is None:
                 continue
             w = {'input': case.text, 'alias': alias, 'level': case.level}
